@@ -113,7 +113,7 @@ func corrRace(prop, outDir string, seed uint64, tier string) *report {
 		runtime.GOMAXPROCS(oldProcs)
 		// every goroutine a derivation started has finished when it returns
 		leak := 0
-		for i := 0; i < 100; i++ {
+		for i := 0; i < 2500; i++ { // up to five seconds on a loaded machine
 			runtime.Gosched()
 			time.Sleep(2 * time.Millisecond)
 			if leak = runtime.NumGoroutine() - g0; leak <= 0 {
@@ -121,7 +121,7 @@ func corrRace(prop, outDir string, seed uint64, tier string) *report {
 			}
 		}
 		if leak > 0 {
-			rep.fail(map[string]interface{}{"history": "Argon2i / Argon2id keys for 2..255 lanes, memories 8p..1024p"}, "no goroutine left behind", fmt.Sprintf("%d goroutines still alive 200 ms after the last Key call returned", leak),
+			rep.fail(map[string]interface{}{"history": "Argon2i / Argon2id keys for 2..255 lanes, memories 8p..1024p"}, "no goroutine left behind", fmt.Sprintf("%d goroutines still alive five seconds after the last Key call returned", leak),
 				"worker goroutines outlive the key derivation")
 		}
 	}
